@@ -216,6 +216,9 @@ pub struct Evidence {
 }
 
 pub fn write_evidence(ev: &Evidence) {
+    if ev.violations == 0 {
+        clear_replays(&ev.property_id);
+    }
     let dir = Path::new("/verif/evidence");
     let _ = std::fs::create_dir_all(dir);
     let p = dir.join(format!("{}.json", ev.property_id));
@@ -231,6 +234,17 @@ pub fn write_replay(prop: &str, body: &Value) -> String {
     let p = dir.join(format!("{prop}-{h}.json"));
     std::fs::write(&p, text).expect("write replay");
     p.to_string_lossy().into_owned()
+}
+
+/// remove replay files of earlier runs of this property
+pub fn clear_replays(prop: &str) {
+    if let Ok(rd) = std::fs::read_dir("/verif/replays") {
+        for e in rd.flatten() {
+            if e.file_name().to_string_lossy().starts_with(&format!("{prop}-")) {
+                let _ = std::fs::remove_file(e.path());
+            }
+        }
+    }
 }
 
 pub fn tier() -> String {
